@@ -31,7 +31,7 @@ LEVEL_NOTE = ('The model of expected effects is sequential: merge parts always a
 RULE = ("enum: all combinations above; rand: random body/status fields + 0-3 transformation functions (idempotent and counting) with random slips; recreate: a slow handler or "
         "daemon on object A, A deleted and re-created at a random phase. non-trivial = at least 2 requests or a fault/slip; distinct = (shape, subresource, slip, fault) or hash of patch")
 ASSUMPTIONS = ["fake API server merge/JSON-patch/status-subresource semantics", "the next cycle is modelled by a second patch_obj call with the returned remaining patch"]
-GATES = {'enum_cases': 500, 'enum_422': 20, 'enum_404': 20, 'enum_slips': 100, 'carried_forward': 20, 'rand_cases': 100, 'recreate_runs': 10, 'patch_and_check_calls': 20}
+GATES = {'enum_cases': 2000, 'enum_422': 20, 'enum_404': 20, 'enum_slips': 100, 'carried_forward': 20, 'rand_cases': 100, 'recreate_runs': 10, 'patch_and_check_calls': 20}
 
 FIN = 'kopf.zalando.org/KopfFinalizerMarker'
 
@@ -84,7 +84,8 @@ def gen_cases(tier: str, seed: int):
         for slip in (None, 1, 2, 3, 4):
             for fault_at in (None, 1, 2, 3, 4):
                 for fault in ((None,) if fault_at is None else (404, 422)):
-                    combos.append([si, sub, slip, fault_at, fault])
+                    for has_status in (True, False):    # a fresh custom resource has no status stanza at all
+                        combos.append([si, sub, slip, fault_at, fault, has_status])
     for i in range(0, len(combos), 100):
         cases.append({'name': f'enum{i // 100}', 'mode': 'enum', 'combos': combos[i:i + 100]})
     nr = 10 if tier == 'quick' else 400
@@ -126,7 +127,7 @@ def run_component(case: dict[str, Any]) -> dict[str, Any]:
     sample = None
     rng = random.Random(case.get('seed', 0))
     if case['mode'] == 'enum':
-        items = [{'shape': SHAPES[c[0]], 'sub': c[1], 'slip': c[2], 'fault_at': c[3], 'fault': c[4], 'key': c} for c in case['combos']]
+        items = [{'shape': SHAPES[c[0]], 'sub': c[1], 'slip': c[2], 'fault_at': c[3], 'fault': c[4], 'has_status': c[5], 'key': c} for c in case['combos']]
     else:
         items = []
         for i in range(case['n']):
@@ -140,7 +141,8 @@ def run_component(case: dict[str, Any]) -> dict[str, Any]:
             status = rng.choice([None, {'x': 1}, {'kopf': {'progress': {'h': {'retries': 1}}}}, {'x': None, 'deep': {'a': {'b': 1}}}])
             fns = rng.sample(list(FNS), k=rng.randint(0, 3))
             items.append({'shape': {'body': body, 'status': status, 'fns': fns}, 'sub': rng.random() < 0.5,
-                          'slip': rng.choice([None, None, 1, 2, 3, 4]), 'fault_at': rng.choice([None, None, None, 1, 2, 3]), 'fault': rng.choice([404, 422]), 'key': None})
+                          'slip': rng.choice([None, None, 1, 2, 3, 4]), 'fault_at': rng.choice([None, None, None, 1, 2, 3]), 'fault': rng.choice([404, 422]),
+                          'has_status': rng.random() < 0.6, 'key': None})
 
     for item in items:
         shape, sub = item['shape'], item['sub']
@@ -150,6 +152,8 @@ def run_component(case: dict[str, Any]) -> dict[str, Any]:
         client = kube.client('op')
         initial = {'apiVersion': 'kopf.dev/v1', 'kind': 'KopfExample', 'metadata': {'finalizers': ['other/fin'] + ([FIN] if 'del_fin' in shape['fns'] else []), 'annotations': {'a': 'old'}},
                    'spec': {'y': 0}, 'status': {'x': 0, 'conditions': []}}
+        if not item.get('has_status', True):
+            del initial['status']
         created = kube.create('kopfexamples', 'ns1', 'obj', copy.deepcopy(initial))
         resource = references.Resource(group='kopf.dev', version='v1', plural='kopfexamples', kind='KopfExample', singular='kopfexample', shortcuts=frozenset(),
                                        categories=frozenset(), subresources=frozenset(['status'] if sub else []), namespaced=True, preferred=True,
@@ -213,9 +217,9 @@ def run_component(case: dict[str, Any]) -> dict[str, Any]:
         reqs = [r for r in kube.requests if r.kind == 'patch']
         cov['enum_cases' if case['mode'] == 'enum' else 'rand_cases'] += 1
         cov['enum_slips'] += bool(slips_done)
-        key = item['key'] or [shape, sub, item['slip'], item['fault_at'], item['fault']]
+        key = item['key'] or [shape, sub, item['slip'], item['fault_at'], item['fault'], item.get('has_status')]
         sig.update(json.dumps(key, sort_keys=True, default=str).encode())
-        tag = f"shape={json.dumps(shape, default=str)} subresource={sub} slip_before={item['slip']} fault={item['fault']}@{item['fault_at']}"
+        tag = f"shape={json.dumps(shape, default=str)} subresource={sub} status_stanza={item.get('has_status', True)} slip_before={item['slip']} fault={item['fault']}@{item['fault_at']}"
         if 'exc' in result:
             e = result['exc']
             injected = [r for r in reqs if r.fault and 'status' in r.fault]
